@@ -225,7 +225,7 @@ def infer(a):
             return ti
         if ei == ('blank',):
             return ('guarded', ti)
-        return None
+        return ('either', ti, ei)
     return infer_flat(a)
 
 
@@ -267,7 +267,13 @@ def agrees(s, i):
     if k == 'decline':
         return True
     if k == 'guarded':
+        if i[0] == 'cond' and i[5] == ('blank',) and agrees(s[1], i[4]):
+            return True
         return agrees(s[1], i)
+    if k == 'either':
+        if not agrees(s[1], i):
+            return False
+        return agrees(s[2], i) or (i[0] == 'sub' and agrees(s[2], ('carry', i[1])))
     if k == 'blank':
         return i == ('blank',)
     if k == 'carry':
@@ -309,6 +315,157 @@ def agrees(s, i):
                 return True
         return (t == ('decline',) and agrees(e, i)) or (e == ('decline',) and agrees(t, i))
     return False
+
+
+def drop_blank_shape(blank, s):
+    k = s[0]
+    if k in ('add', 'addFloor0', 'addCap0'):
+        return (k, [n for n in s[1] if n not in blank])
+    if k == 'condGt':
+        return ('condGt', s[1], s[2], drop_blank_shape(blank, s[3]), drop_blank_shape(blank, s[4]))
+    if k == 'guarded':
+        return ('guarded', drop_blank_shape(blank, s[1]))
+    if k == 'either':
+        return ('either', drop_blank_shape(blank, s[1]), drop_blank_shape(blank, s[2]))
+    return s
+
+
+def drop_blank_instr(blank, i):
+    k = i[0]
+    if k in ('add', 'addFloor0', 'addCap0'):
+        return (k, [n for n in i[1] if n not in blank])
+    if k == 'cond':
+        return ('cond', i[1], i[2], i[3], drop_blank_instr(blank, i[4]), drop_blank_instr(blank, i[5]))
+    return i
+
+
+def _names(t):
+    out = set()
+    if isinstance(t, (list, tuple)):
+        for x in t:
+            out |= _names(x)
+    elif isinstance(t, str):
+        out.add(t)
+    return out
+
+
+# ---- mirror of the certified fragment (Spec.certified) -------------------------------------------------------
+def is_value(a):
+    k = a[0]
+    if k in ('read', 'lit'):
+        return True
+    if k in ('add', 'sub', 'mul', 'max', 'min'):
+        return is_value(a[1]) and is_value(a[2])
+    return False
+
+
+def is_result(a):
+    if a[0] == 'none':
+        return True
+    if a[0] == 'iteCmp':
+        return is_value(a[2]) and is_value(a[3]) and is_result(a[4]) and is_result(a[5])
+    return is_value(a)
+
+
+def chain_names(a):
+    if a[0] == 'read':
+        return [a[1]]
+    if a[0] == 'add' and a[2][0] == 'read':
+        ns = chain_names(a[1])
+        return None if ns is None else ns + [a[2][1]]
+    return None
+
+
+def chain_is(b, ls):
+    ns = chain_names(b)
+    return ns is not None and len(ns) <= 20 and same_perm(ns, ls)
+
+
+def is_zero_a(a):
+    return a[0] == 'lit' and a[1] == '0000000000000000'
+
+
+def is_blank_a(a):
+    return a[0] == 'none' or is_zero_a(a)
+
+
+def floor_body(x, y):
+    return y if is_zero_a(x) else (x if is_zero_a(y) else None)
+
+
+def is_sub_of(a, p, q):
+    return a[0] == 'sub' and a[1][0] == 'read' and a[2][0] == 'read' and a[1][1] == p and a[2][1] == q
+
+
+def certifies_flat(a, i):
+    k = i[0]
+    if k == 'blank':
+        return is_blank_a(a)
+    if k == 'carry':
+        return a[0] == 'read' and a[1] == i[1]
+    if k == 'sub':
+        return is_sub_of(a, i[1], i[2])
+    if k in ('smaller', 'larger'):
+        want = 'min' if k == 'smaller' else 'max'
+        return a[0] == want and a[1][0] == 'read' and a[2][0] == 'read' and same_pair(a[1][1], a[2][1], i[1], i[2])
+    if k in ('subFloor0', 'addFloor0'):
+        if a[0] != 'max':
+            return False
+        b = floor_body(a[1], a[2])
+        if b is None:
+            return False
+        return is_sub_of(b, i[1], i[2]) if k == 'subFloor0' else chain_is(b, i[1])
+    if k == 'addCap0':
+        if a[0] != 'min':
+            return False
+        b = floor_body(a[1], a[2])
+        return b is not None and chain_is(b, i[1])
+    if k == 'add':
+        return chain_is(a, i[1])
+    return False
+
+
+FLIP = {'lt': 'gt', 'gt': 'lt', 'le': 'ge', 'ge': 'le'}
+NEG = {'lt': 'ge', 'ge': 'lt', 'gt': 'le', 'le': 'gt'}
+
+
+def same_test(op, x, y, c, p, q):
+    return (op == c and x == p and y == q) or (op == FLIP[c] and x == q and y == p)
+
+
+def tests_above(op, x, y, p, q):
+    g = op in ('gt', 'ge')
+    return (g and x == p and y == q) or ((not g) and x == q and y == p)
+
+
+def certifies(a, i):
+    if a[0] == 'iteCmp' and a[2][0] == 'read' and a[3][0] == 'read':
+        _, op, (_, x), (_, y), t, e = a
+        if i[0] == 'cond':
+            _, c, p, q, ti, ei = i
+            if same_test(op, x, y, c, p, q) and certifies(t, ti) and certifies(e, ei):
+                return True
+            if same_test(op, x, y, NEG[c], p, q) and certifies(t, ei) and certifies(e, ti):
+                return True
+        f = as_floor(i)
+        if f is not None:
+            p, q = f
+            if tests_above(op, x, y, p, q) and is_sub_of(t, p, q) and is_blank_a(e):
+                return True
+            if tests_above(op, x, y, q, p) and is_blank_a(t) and is_sub_of(e, p, q):
+                return True
+        return False
+    return certifies_flat(a, i)
+
+
+def certified(line, ins):
+    if line['kind'] != ['float', 2] and tuple(line['kind']) != ('float', 2):
+        return False
+    body = line['body']
+    if len(body) != 1 or body[0][0] != 'ret':
+        return False
+    a = to_arith(body[0][1])
+    return a is not None and is_result(a) and certifies(a, ins)
 
 
 def line_shape(line):
@@ -431,6 +588,9 @@ def generate(table, irs, out_dir):
         if ir is None:
             continue
         classes = {c['name']: c for c in ir['classes']}
+        always_blank = {}
+        for cname, cc in classes.items():
+            always_blank[cname] = {l['name'] for l in cc['lines'] if line_shape(l)[0] == ('blank',)}
         lines = [
             f'import HabuVerif.Spec.Instr',
             f'import HabuVerif.Gen.Catalogue{Y}',
@@ -500,10 +660,24 @@ def generate(table, irs, out_dir):
                 ok = agrees(shape, ins)
                 rec['code_computes'] = show(shape)
                 if ok:
-                    guarded = shape[0] == 'guarded'
+                    guarded = shape[0] in ('guarded', 'either')
                     rec.update(status='proved', guarded=guarded, theorem=oid)
                     fs['proved_guarded' if guarded else 'proved'] += 1
                     lines.append(f'theorem {oid} : matchesInstr {ldef} {lean_instr(ins)} = true := by decide +kernel')
+                    if certified(l, ins):
+                        # the narrow check for which Proofs/InstrSound.lean proves the cents-level statement
+                        rec['certified'] = oid + '_certified'
+                        fs['certified'] = fs.get('certified', 0) + 1
+                        lines.append(f'theorem {oid}_certified : certified {ldef} {lean_instr(ins)} = true := by decide +kernel')
+                elif agrees(drop_blank_shape(always_blank[form], shape), drop_blank_instr(always_blank[form], ins)):
+                    dropped = sorted(n for n in always_blank[form]
+                                     if n in json.dumps([shape, list(ins)]) and
+                                     (n in _names(shape)) != (n in _names(ins)))
+                    rec.update(status='proved', guarded=shape[0] == 'guarded', theorem=oid, mod_blank=dropped,
+                               note='proved modulo operands whose own code can only produce a blank: ' + ', '.join(dropped))
+                    fs['proved_mod_blank'] = fs.get('proved_mod_blank', 0) + 1
+                    lines.append(f'-- modulo always-blank operands {comment_safe(dropped)}: code {comment_safe(show(shape))}')
+                    lines.append(f'theorem {oid} : matchesInstrModBlank c_{ident(form)} {ldef} {lean_instr(ins)} = true := by decide +kernel')
                 else:
                     w = {'year': Y, 'form': form, 'line': line, 'code_computes': show(shape), 'form_says': show(ins),
                          'text': r.get('text', '')[:200], 'source': r['source']}
@@ -519,14 +693,16 @@ def generate(table, irs, out_dir):
         lines.append(f'end HabuVerif.Gen.C02_{Y}')
         lines.append('')
         files[f'C02_{Y}.lean'] = '\n'.join(lines)
-    tot = {'instructions': 0, 'proved': 0, 'proved_guarded': 0, 'failed': 0, 'uncovered': 0}
+    tot = {'instructions': 0, 'proved': 0, 'proved_guarded': 0, 'proved_mod_blank': 0, 'certified': 0, 'failed': 0, 'uncovered': 0}
     for Y, d in summary.items():
         for f, x in d.items():
             for k in tot:
-                tot[k] += x[k]
+                tot[k] += x.get(k, 0)
     files['C02.lean'] = '\n'.join([f'import HabuVerif.Gen.C02_{Y}' for Y in YEARS if Y in irs] + [
         '/-!', '# C02 generated obligations (GENERATED by tools/gen_c02.py -- do not edit)', '',
-        f'{tot["instructions"]} instructions: {tot["proved"]} proved, {tot["proved_guarded"]} proved under a guard',
+        f'{tot["instructions"]} instructions: {tot["proved"]} proved, {tot["proved_mod_blank"]} proved modulo always-blank operands,',
+        f'{tot["certified"]} of the proved ones also `certified` (cents-level soundness: Proofs/InstrSound.lean),',
+        f'{tot["proved_guarded"]} proved under a guard',
         f'(the line is what the form says or blank), {tot["failed"]} false on this tree (proved negations, see',
         f'`c02_failed.json`), {tot["uncovered"]} uncovered (code outside the arithmetic fragment, see `c02_obligations.json`).',
         '-/', ''])
@@ -564,7 +740,7 @@ def main(argv=None):
     obligations, failed, summary, tot = generate(table, irs, a.out_dir)
     if not a.quiet:
         print(json.dumps({'totals': tot, 'failed': [f['id'] for f in failed],
-                          'per_year': {Y: {k: sum(x[k] for x in d.values()) for k in tot} for Y, d in summary.items()}},
+                          'per_year': {Y: {k: sum(x.get(k, 0) for x in d.values()) for k in tot} for Y, d in summary.items()}},
                          indent=1))
     return 0
 
